@@ -19,6 +19,7 @@
 #include <core/sync.h>
 #include <datatypes/msg_queue.h>
 #include <distributed/mpi.h>
+#include <verif/rsv.h>
 
 #include <memory.h>
 #include <stdatomic.h>
@@ -253,6 +254,7 @@ static bool gvt_node_phase_run(void)
 
 simtime_t gvt_phase_run(void)
 {
+	RSV_YIELD(RSV_SITE_GVT_PHASE);
 	if(unlikely(thread_phase))
 		return gvt_node_phase_run() ? *reducing_p : 0.0;
 
@@ -274,17 +276,21 @@ simtime_t gvt_phase_run(void)
 
 void gvt_msg_drain(void)
 {
+	RSV_EV(RSV_EV_STAGE, NULL, 1, 0, 0.0);
 	while(thread_phase != thread_phase_idle) // flush partial gvt algorithm
 		gvt_phase_run();
 
+	RSV_EV(RSV_EV_STAGE, NULL, 2, 0, 0.0);
 	if(sync_thread_barrier())
 		mpi_node_barrier();
 	sync_thread_barrier();
+	RSV_EV(RSV_EV_STAGE, NULL, 3, 0, 0.0);
 
 	for(int i = 0; i < 2; ++i) { // flush both gvt phases
 		gvt_timer = 0;       // this satisfies the timer condition
 		while(!gvt_phase_run())
 			mpi_remote_msg_drain();
+		RSV_EV(RSV_EV_STAGE, NULL, 4 + i, 0, 0.0);
 	}
 }
 
